@@ -318,9 +318,9 @@ func agg(r *chk.Run, prop string, jobs []Job, results []*e1.Result) {
 			sc := jobs[i].Sc
 			choices := ex.Choices
 			r.Report(chk.Violation{
-				Key:  ex.Key,
-				What: fmt.Sprintf("%s [scenario %s, bound %d, %d executions]", ex.What, sc.Name, res.Bound, ex.Count),
-				Kind: prop + "-schedule",
+				Key:    ex.Key,
+				What:   fmt.Sprintf("%s [scenario %s, bound %d, %d executions]", ex.What, sc.Name, res.Bound, ex.Count),
+				Kind:   prop + "-schedule",
 				Replay: replayInput{Sc: sc, Choices: choices, Bound: res.Bound},
 				Recheck: func() string {
 					rec := e1.Execute(&sc, vrt.Config{Prefix: choices, Budget: -1})
